@@ -1,40 +1,145 @@
-(* C05 -- Sequential behaviour equals a simple contiguous-log model.
-   INTERIM file: the full statement is `seq_refinement_stmt` of Wal/Hist.v; its
-   proof is in progress (Wal/SeqInv.v).  Until it lands the property is carried
-   by the correspondence stream `seqapi` (model = implementation on generated
-   sequences) together with the evaluation of the statement on random histories
-   of the model, and by the independent reference-log oracle of the harness. *)
-From RW Require Import Base.Bytes Fmt.Codec Fmt.Frame Wal.Model Wal.Spec Wal.Hist Wal.BasicFacts.
+(* C05 -- The log is contiguous and reads agree with it: every sequential
+   history of StoreLogs / DeleteRange / GetLog / FirstIndex / LastIndex /
+   Set / Get / Close+Open calls returns, call by call, what the contiguous-log
+   specification (Wal/Spec.v) returns, and leaves the same abstract state.
+   Only statements here; proofs live in Wal/SeqFacts*.v (invariant: Wal/SeqInv.v). *)
+From RW Require Import Base.Bytes Fmt.Codec Fmt.Frame Wal.Model Wal.Spec Wal.Hist Wal.BasicFacts
+  Wal.SeqFactsMain Wal.SeqFactsCor.
 Open Scope N_scope.
 
-Definition C05_full_statement : Prop := seq_refinement_stmt.
+(* the refinement itself (statement: Wal/Hist.v seq_refinement_stmt) *)
+Theorem C05_refines_spec : seq_refinement_stmt.
+Proof. exact seq_refinement. Qed.
+Print Assumptions C05_refines_spec.
 
-(* proved fragment: the initial state refines the empty log *)
-Theorem C05_initial_refines_partial :
+(* the first Open on an empty directory succeeds and yields the empty log, an
+   exact directory and an empty stable store *)
+Theorem C05_initial_refines :
   forall c, cfg_ok c ->
   exists w e, open_wal c fresh_env = (OOk w, e) /\ abs w (e_disk e) = sl_empty /\
               dir_exact (e_disk e) = true /\ dk_stable (e_disk e) = [] /\
               first_index (st_segs w) (st_tail w) = 0 /\ last_index (st_segs w) (st_tail w) = 0.
 Proof. exact first_open. Qed.
-Print Assumptions C05_initial_refines_partial.
+Print Assumptions C05_initial_refines.
 
-(* the statement evaluated on a concrete run with rotation, head and tail truncation *)
-Definition ex_log (i : N) (n : nat) : log :=
-  {| l_index := i; l_term := 1; l_type := 0; l_data := repeat 7 n; l_ext := [];
-     l_time := {| t_sec := 63800000000; t_nsec := 0; t_zone := None |} |}.
+(* After any history, GetLog i returns the stored entry exactly when the log is
+   not empty and first <= i <= last, and ErrNotFound otherwise; the entry
+   returned carries index i.  (lg = the specification's log after the history) *)
+Theorem C05_get_in_range :
+  forall c os s0 i, cfg_ok c -> Forall sop_ok os -> short_enough os -> initial c = Some s0 ->
+  let s1 := snd (run_model c s0 os) in
+  let lg := sp_log (snd (run_spec spec_init os)) in
+  fst (step_model c s1 (OGet i)) =
+    match spec_get lg i with Some l => RLog l | None => RErrNotFound end /\
+  (forall l, spec_get lg i = Some l -> l_index l = i /\ log_ok l) /\
+  (sl_is_empty lg = false -> (spec_get lg i <> None <-> sl_first lg <= i <= spec_last lg)) /\
+  (sl_is_empty lg = true -> spec_get lg i = None).
+Proof. exact get_in_range. Qed.
+Print Assumptions C05_get_in_range.
+
+(* Close followed by Open succeeds and changes neither the log nor the stable store *)
+Theorem C05_reopen_id :
+  forall c os s0, cfg_ok c -> Forall sop_ok os -> short_enough os -> initial c = Some s0 ->
+  let s1 := snd (run_model c s0 os) in
+  fst (step_model c s1 OReopen) = ROk /\
+  s_abs (snd (step_model c s1 OReopen)) = s_abs s1 /\ s_kv (snd (step_model c s1 OReopen)) = s_kv s1.
+Proof. exact reopen_id. Qed.
+Print Assumptions C05_reopen_id.
+
+(* A StoreLogs / DeleteRange the specification refuses (non-consecutive batch,
+   gap or overlap with the last index, range strictly inside the log) returns
+   an error and changes nothing *)
+Theorem C05_errors_change_nothing :
+  forall c os s0 o, cfg_ok c -> Forall sop_ok os -> short_enough os -> initial c = Some s0 -> sop_ok o ->
+  let s1 := snd (run_model c s0 os) in
+  let lg := sp_log (snd (run_spec spec_init os)) in
+  match o with
+  | OStore ls => spec_store lg ls = None
+  | ODelete mn mx => spec_delete lg mn mx = None
+  | _ => False
+  end ->
+  res_class (fst (step_model c s1 o)) = RErrOther /\
+  s_abs (snd (step_model c s1 o)) = lg /\ s_kv (snd (step_model c s1 o)) = s_kv s1.
+Proof. exact errors_change_nothing. Qed.
+Print Assumptions C05_errors_change_nothing.
+
+(* An empty log (fresh, or emptied by DeleteRange) accepts a consecutive batch
+   starting at any index >= 1 *)
+Theorem C05_empty_accepts_any_start :
+  forall c os s0 l0 rest, cfg_ok c -> Forall sop_ok os -> short_enough os -> initial c = Some s0 ->
+  let s1 := snd (run_model c s0 os) in
+  let ls := l0 :: rest in
+  sl_is_empty (sp_log (snd (run_spec spec_init os))) = true ->
+  logs_ok ls -> frames_size ls < two30 -> consecutive (l_index l0) ls = true ->
+  fst (step_model c s1 (OStore ls)) = ROk /\
+  s_abs (snd (step_model c s1 (OStore ls))) = {| sl_first := l_index l0; sl_ents := ls |}.
+Proof. exact empty_accepts_any_start. Qed.
+Print Assumptions C05_empty_accepts_any_start.
+
+(* ---- non-vacuity: a concrete run with 128-byte segments (an entry frame is 40
+   bytes, so a segment seals after three entries): two rotations, a head
+   truncation inside a sealed segment, refused calls, a tail truncation that
+   drops the tail segment, reopen, emptying the log and restarting at index 3 *)
+Definition ex_c : cfg := {| c_seg_size := 128; c_codec := 1 |}.
+Definition ex_log (i : N) : log :=
+  {| l_index := i; l_term := 7; l_type := 0; l_data := [i; 1; 2; 3; 4; 5; 6; 7; 8; 9];
+     l_ext := []; l_time := {| t_sec := 63800000000; t_nsec := 5; t_zone := None |} |}.
 Definition ex_ops : list sop :=
-  [OStore [ex_log 5 40; ex_log 6 40]; OStore [ex_log 7 60]; OGet 6; OStore [ex_log 9 1];
-   ODelete 5 5; OFirst; OStore [ex_log 8 10; ex_log 9 10]; ODelete 9 20; OLast; OReopen;
-   OGet 5; OGet 6; OGet 8; ODelete 7 7; OStore [ex_log 9 3]; ODelete 0 100; OFirst; OStore [ex_log 3 1]; OGet 3].
-Example C05_ex_run :
-  let c := {| c_seg_size := 128; c_codec := 1 |} in
-  match initial c with
-  | Some s0 =>
-      let '(rs, s1) := run_model c s0 ex_ops in
-      let '(rs', sp1) := run_spec {| sp_log := sl_empty; sp_kv := [] |} ex_ops in
-      forallb (fun p => result_eqb (fst p) (snd p)) (combine (map res_class rs) rs')
-      && slog_eqb (abs (ss_wal s1) (e_disk (ss_env s1))) (sp_log sp1)
-      && Nat.eqb (length rs) 19
-  | None => false
-  end = true.
+  [ OStore [ex_log 5; ex_log 6]; OStore [ex_log 7]; OStore [ex_log 8; ex_log 9]; OStore [ex_log 10];
+    OStore [ex_log 11; ex_log 12]; OFirst; OLast; OGet 6; OGet 4;
+    ODelete 0 6; OFirst; OGet 6; OGet 7;
+    OStore [ex_log 14];                (* refused: gap *)
+    ODelete 8 9;                       (* refused: middle of the log *)
+    ODelete 11 100; OLast; OGet 11; OGet 10;
+    OSet [107] [1; 2] false; OGetS [107];
+    OReopen; OFirst; OLast; OGet 9;
+    OStore [ex_log 11]; OLast; ODelete 1 1000; OFirst; OLast; OStore [ex_log 3]; OFirst ].
+
+Example C05_ex_cfg_ok : cfg_ok ex_c.
+Proof. unfold cfg_ok, ex_c, two64, two30; cbn. split; [left; reflexivity|lia]. Qed.
+Example C05_ex_ops_ok : forallb (fun o => match o with
+                                           | OStore ls => forallb log_okb ls && (frames_size ls <? two30)
+                                           | ODelete _ mx => mx + 1 <? two64
+                                           | OGet i => i <? two64
+                                           | OSet k v _ => wf_bytesb k && wf_bytesb v && (len v <? two31)
+                                           | _ => true end) ex_ops = true.
 Proof. vm_compute. reflexivity. Qed.
+Example C05_ex_initial : exists s0, initial ex_c = Some s0.
+Proof. vm_compute. eexists. reflexivity. Qed.
+
+Definition ex_s0 : sstate :=
+  match initial ex_c with Some s => s | None => {| ss_wal := close (fst (rotate ex_c
+    {| st_next_id := 0; st_segs := []; st_tail := None; st_rotate := None; st_failed := true; st_closed := true |}
+    fresh_env)); ss_env := fresh_env |} end.
+
+(* results, abstract state and stable store of the model = those of the specification *)
+Example C05_ex_run :
+  (let '(rs, s1) := run_model ex_c ex_s0 ex_ops in (map res_class rs, s_abs s1, s_kv s1)) =
+  (let '(rs', sp1) := run_spec spec_init ex_ops in (rs', sp_log sp1, sp_kv sp1)).
+Proof. vm_compute. reflexivity. Qed.
+
+(* the observable results of that run, spelled out *)
+Example C05_ex_results :
+  map res_class (fst (run_model ex_c ex_s0 ex_ops)) =
+  [ROk; ROk; ROk; ROk; ROk; RVal 5; RVal 12; RLog (ex_log 6); RErrNotFound;
+   ROk; RVal 7; RErrNotFound; RLog (ex_log 7);
+   RErrOther; RErrOther;
+   ROk; RVal 10; RErrNotFound; RLog (ex_log 10);
+   ROk; RBytes [1; 2];
+   ROk; RVal 7; RVal 10; RLog (ex_log 9);
+   ROk; RVal 11; ROk; RVal 0; RVal 0; ROk; RVal 3].
+Proof. vm_compute. reflexivity. Qed.
+
+(* after the first nine calls the log spans three segments, two of them sealed
+   by rotation; after the first nineteen the head segment has MinIndex 7 and the
+   tail segment was replaced by tail truncation *)
+Example C05_ex_segments :
+  let s9 := snd (run_model ex_c ex_s0 (firstn 9 ex_ops)) in
+  let s19 := snd (run_model ex_c ex_s0 (firstn 19 ex_ops)) in
+  map (fun s => (si_base s, si_min s, si_max s, si_sealed s)) (st_segs (ss_wal s9)) =
+    [(5, 5, 7, true); (8, 8, 10, true); (11, 11, 0, false)] /\
+  m_rotations (e_m (ss_env s9)) = 2 /\
+  map (fun s => (si_base s, si_min s, si_max s, si_sealed s)) (st_segs (ss_wal s19)) =
+    [(5, 7, 7, true); (8, 8, 10, true); (11, 11, 0, false)] /\
+  map si_id (st_segs (ss_wal s9)) = [1; 2; 3] /\ map si_id (st_segs (ss_wal s19)) = [1; 2; 4].
+Proof. vm_compute. repeat split; reflexivity. Qed.
